@@ -614,7 +614,10 @@ where
                 .collect::<Vec<_>>();
             for module in mods {
                 // Use cloned handles to appease the brwchk
-                if stage < module.num_sim_start_stages() {
+                //
+                // A module that has shut down or panicked in an earlier stage is inactive:
+                // none of its code may run until it is restarted, which replays all stages.
+                if stage < module.num_sim_start_stages() && module.is_active() {
                     module.activate();
 
                     #[cfg(feature = "tracing")]
